@@ -117,6 +117,12 @@ fn shuttle_cfg(max_steps: usize) -> shuttle::Config {
     cfg.failure_persistence = shuttle::FailurePersistence::None;
     cfg.max_steps = shuttle::MaxSteps::FailAfter(max_steps);
     cfg.silence_warnings = true;
+    // Stop scheduling as soon as a task panics. Otherwise, when the unwinding task
+    // yields inside a drop handler, shuttle keeps running the OTHER tasks while the
+    // OS thread is still `panicking()`; any consequential panic there (poisoned lock
+    // `.expect`, `join().expect` in the library's Drop impls) is a double panic and
+    // aborts the whole checker instead of reporting the violation.
+    cfg.ungraceful_shutdown_config.immediately_return_on_panic = true;
     cfg
 }
 
